@@ -32,5 +32,22 @@ Proof.
   rewrite !map_map. split; apply map_ext; intros v; cbn; [reflexivity | apply eq_checks_components].
 Qed.
 
+(** what "takes part in equality" means ([eq_components] is defined through [eq_selected], SpecCmp.v): a field
+    customised for `Eq` by `#[eq(..)]` / `#[ord(..)]` is compared by `==` through the MOST SPECIFIC of
+    `partial_eq`, `eq`, `partial_ord`, `ord` - that expression is the one whose type must be `Eq`
+    (before fix 3 of round 12 the assertion looked at `#[eq]` / `#[ord]` only, and
+    `#[partial_eq(key = $.0)] #[eq(key = $.1)] x: (f32, i32)` made a type `Eq` whose `==` compares a float) *)
+Definition with_key (k : toks) : cmp_attr :=
+  {| c_ignore := false; c_reverse := false; c_by := None; c_key := Some k; c_bounds := bounds_new |}.
+Example C17_the_key_of_partial_eq_decides :
+  forall k0 k1,
+    eq_selected {| h_ord := cmp_attr_default; h_partial_ord := cmp_attr_default; h_eq := with_key k1;
+                   h_partial_eq := with_key k0; h_hash := cmp_attr_default |} = SKey k0
+    /\ eq_selected {| h_ord := with_key k1; h_partial_ord := with_key k0; h_eq := cmp_attr_default;
+                      h_partial_eq := cmp_attr_default; h_hash := cmp_attr_default |} = SKey k0
+    /\ eq_selected {| h_ord := cmp_attr_default; h_partial_ord := with_key k0; h_eq := cmp_attr_default;
+                      h_partial_eq := cmp_attr_default; h_hash := cmp_attr_default |} = SOwn.
+Proof. intros. repeat split; reflexivity. Qed.
+
 Print Assumptions C17_struct.
 Print Assumptions C17_enum.
